@@ -143,6 +143,7 @@ class Ctx:
         self.call_log: List[Any] = []  # calls made through contracts on this path, in order (ghost; see speclib.CALLS)
         self.top_contract = None
         self.top_ns = None
+        self.ysym = None  # symbolic sequence of yields (generators with yields inside invariant loops)
         self.entry_measure = None
 
     # ---- fresh symbols
@@ -878,7 +879,10 @@ class Engine:
             cls = self.repo.cls(v.kind.clsname)
             el = z3.Select(v.arr, i)
             rng = z3.Or(*[self.tag_fn(el) == self.class_id(c) for c in cls.instantiable_subclasses()])
-            ctx.add_axiom(z3.ForAll([i], z3.Implies(z3.And(0 <= i, i < v.length), rng), patterns=[el]))
+            try:
+                ctx.add_axiom(z3.ForAll([i], z3.Implies(z3.And(0 <= i, i < v.length), rng), patterns=[el]))
+            except z3.Z3Exception:  # the array term is not usable as a trigger (e.g. it contains an if-then-else)
+                ctx.add_axiom(z3.ForAll([i], z3.Implies(z3.And(0 <= i, i < v.length), rng)))
         elif isinstance(v, OptV):
             self.assume_wellformed(ctx, v.val)
         elif isinstance(v, RecV):
@@ -1040,11 +1044,11 @@ class Engine:
             self.exec_block(ctx, finfo.node.body, env)
             result = None
             if finfo.is_generator:
-                result = V.GeneratorV(ctx.yielded)
+                result = ctx.ysym if getattr(ctx, "ysym", None) is not None else V.GeneratorV(ctx.yielded)
         except ReturnSig as r:
             result = r.value
             if finfo.is_generator:
-                result = V.GeneratorV(ctx.yielded)
+                result = ctx.ysym if getattr(ctx, "ysym", None) is not None else V.GeneratorV(ctx.yielded)
         except PyRaise as pr:
             if res is not None:
                 res.raising_paths += 1
@@ -1865,7 +1869,10 @@ class Engine:
 
     def ex_Yield(self, ctx, e, env):
         v = self.eval(ctx, e.value, env) if e.value is not None else None
-        ctx.yielded.append(v)
+        if getattr(ctx, "ysym", None) is not None:
+            ctx.ysym.push(v)
+        else:
+            ctx.yielded.append(v)
         return None
 
     def ex_Call(self, ctx, e, env):
